@@ -688,8 +688,9 @@ impl Navigate for Assembler {
                                     let src = self.code.pop().unwrap();
                                     self.code.push(dst);
                                     self.code.push(src);
+                                    // push_data_list has already advanced the PC over the two operand bytes
                                     if let Some(pc) = self.pc.as_mut() {
-                                        *pc += 3;
+                                        *pc += 1;
                                     }
                                     return Ok(Navigation::Exit);
                                 }
